@@ -108,7 +108,8 @@ class Rec:
     """What a shard observed. Everything in here is measured by the run."""
 
     MAX_SAMPLES = 4
-    MAX_VIOL = 400
+    MAX_VIOL = 4000
+    MAX_PER_SIG = 60
 
     def __init__(self) -> None:
         self.evaluations = 0
@@ -140,7 +141,10 @@ class Rec:
 
     def violation(self, sig: str, features: list[str] | set[str], case: Any, detail: str = "") -> None:
         self.count("violations_raw")
-        if len(self.violations) < self.MAX_VIOL:
+        # cap per signature (so a frequent known finding cannot crowd out a rare new violation), and overall
+        self._per_sig = getattr(self, "_per_sig", {})
+        self._per_sig[sig] = self._per_sig.get(sig, 0) + 1
+        if self._per_sig[sig] <= self.MAX_PER_SIG and len(self.violations) < self.MAX_VIOL:
             self.violations.append(
                 {"sig": sig, "features": sorted(set(features)), "case": case, "detail": detail[:2000]}
             )
